@@ -474,7 +474,10 @@ def suite_damage(pid, tier, seed):
     rng = random.Random(seed * 1000003 + 47)
     cases = [gen.damage_case(f"d{i}", rng, length=rng.choice([3, 4, 5, 6])) for i in range(n)]
     cases += two_segment_bases(rng, max(4, n // 3))
-    real, model = both_sides(f"damage-{tier}-{seed}-{n}", cases, "damage-all")
+    # runs of identical records (the same key and content put twice in a row, the same absent-again key
+    # removed after a re-put of unchanged content): damage in the repeat must be detected like any other
+    cases.append("case dcorpus_repeat\ncfg kt=bytes n=100 sync=1\nopen\nput 616c706861 4141\nput 686f74 4444\nput 686f74 4444\nput 686f74 4444\nremove 616c706861\nput 616c706861 4141\nput 616c706861 4141\nclose\nend\n")
+    real, model = both_sides(f"damage2-{tier}-{seed}-{n}", cases, "damage-all")
     R, M = run.by_case(real), run.by_case(model)
     diffs, failures, distinct = [], [], set()
     nd = 0
@@ -767,7 +770,7 @@ def suite_powerloss(pid, tier, seed):
     rng = random.Random(seed * 1000003 + 71)
     cases = [gen.crash_case(f"w{i}", rng, length=rng.choice([3, 4, 5, 6]), big=0.2, sync_only=True) for i in range(n)]
     cases += [c.replace("case corpus_", "case plcorpus_", 1) for c in gen.crash_corpus()] + gen.powerloss_corpus()
-    real, model = both_sides(f"powerloss-{tier}-{seed}-{n}", cases, "powerloss-all", extra_env={"HX_SHIM_DATA": "1"})
+    real, model = both_sides(f"powerloss2-{tier}-{seed}-{n}", cases, "powerloss-all", extra_env={"HX_SHIM_DATA": "1"})
     R, M = headers_split(real), headers_split(model)
     Rn = {h.split()[1]: (h, v) for h, v in R.items()}
     Mn = {h.split()[1]: (h, v) for h, v in M.items()}
@@ -806,7 +809,8 @@ def suite_orphans(pid, tier, seed):
     n = 60 if tier == "quick" else 1500
     rng = random.Random(seed * 1000003 + 73)
     cases = [gen.orphan_case(f"o{i}", rng, noncanonical=(i % 6 == 5)) for i in range(n)]
-    real, model = both_sides(f"orphans-{tier}-{seed}-{n}", cases, "plain")
+    cases += [gen.orphan_case(f"om{i}", rng, missing=True) for i in range(n // 4)]
+    real, model = both_sides(f"orphans2-{tier}-{seed}-{n}", cases, "plain")
     R, M = run.by_case(real), run.by_case(model)
     diffs, failures, distinct = [], [], set()
     for c in cases:
